@@ -41,21 +41,37 @@ SPEC = {
                 'Go sort.SliceStable / sort.Slice are deterministic functions of their input slice',
                 'the effect of randomized map iteration is sampled by repetition on fresh instances (16 per case), not controlled'],
     'assumptions': ['the repetition harness can only witness order dependence that shows within 16 fresh evaluations; the theorems carry the unbounded claim'],
-    'modelled': 'WHOLE OUTCOME of both plugins (Model/DeterminismSys.v) as a function of (previous outcome, query, ordered attributed observations, configuration) and of a runtime '
-                '= the order in which the Go runtime ranges over every internally built map: commit = aggregate -> getConsensusObservation -> merkle-root state machine (select / build / wait) '
-                '-> Outcome.Sort (both variants of the off-ramp threshold, before / after the repair of F26; which one the code has is found by computation), token-price and chain-fee Outcome, discovery Outcome (composition of the C01/C03/C04/C14 models); execute = the five merges over minObservation '
-                '(cache, GetValid in ascending id order, last-writer-wins maps) -> getCommitReportsOutcome / getMessagesOutcome / getFilterOutcome (C08 report builder) -> newSortedOutcome; '
-                'Reports = (outcome, GetTransmissionSchedule of the role map). Plus the seams: GetConsensusMap / GetValid iteration order, sort-before-encode, the %v identity of time.Time. '
-                'The canon functions have no own-oracle-id argument. Not modelled: JSON text layer (C20), decoding, the discovery step inside the execute plugin (same function as commit\'s), goroutines (none are started in Outcome/Reports)',
-    'level_text': 'Proof: 27 Coq statements. Whole outcome (for all inputs, all runtimes): C10_commit_outcome_deterministic — merkle-root outcome (type, intervals, roots, off-ramp numbers, attempts, '
-                  'signatures, RMN config), token prices, gas prices and discovery address maps are equal for every iteration order of every map in the observations (fChain, fee components, native prices, '
-                  'fee / token updates, address maps), in the configuration (TokenInfo, FeeInfo) and of every internally built map; no hypothesis on the observations. C10_exec_outcome_deterministic — '
-                  'the three execute states incl. the report builder, under re-ordering of CommitReports / Messages / TokenData / Nonces at both map levels, fChain, every minObservation cache and the '
-                  'merged observation; hypothesis: ids faithful (sha3 collision free) — shown necessary by two witnesses; NO unique-sort-key hypothesis: consensus does not give unique keys (witness) '
-                  'but stable sorts keep ties in id order (C10_exec_dupkey_refuted: with pre-F17 GetValid the outcome differs). C10_*_reports_deterministic / C10_schedule_role_map_only — schedule '
-                  'depends on the role map only. Concrete 4-oracle rounds (all maps reversed + reversed runtime) as non-vacuity examples. Seams as before (9 theorems, F17 / F25 refutations). '
-                  'Correspondence: the composed parts are the models judged by C04_round / C01 / C14 / C07 / C08 sinks (C10_commit_parts_are_the_judged_models); commit and execute '
-                  'Plugin.Outcome + Reports evaluated repeatedly on fresh instances / own ids / time zones must yield exactly one result per input.',
-    'level_note': 'Trusted: Coq kernel, the model of the order-sensitive seams, libocr input agreement. The tie to the code is a repetition (sampling) harness for '
-                  'map-order effects; goroutine timing does not enter Outcome/Reports (no goroutines are started there). No axioms.',
+    'modelled': 'WHOLE OUTCOME of both plugins (Model/DeterminismSys.v) as a function of (previous outcome, query, ordered attributed observations, configuration) and '
+                'of a runtime = the order in which the Go runtime ranges over every internally built map: commit = aggregate -> getConsensusObservation -> merkle-root '
+                'state machine (select / build / wait) -> Outcome.Sort (both variants of the off-ramp threshold, before / after the repair of F26; which one the code '
+                'has is found by computation), token-price and chain-fee Outcome, discovery Outcome (composition of the C01/C03/C04/C14 models); execute = the five '
+                'merges over minObservation (cache, GetValid in ascending id order, last-writer-wins maps) -> getCommitReportsOutcome / getMessagesOutcome / '
+                'getFilterOutcome (C08 report builder) -> newSortedOutcome; Reports = (outcome, GetTransmissionSchedule of the role map). Plus the seams: '
+                'GetConsensusMap / GetValid iteration order, sort-before-encode, the %v identity of time.Time. The canon functions have no own-oracle-id argument. Not '
+                "modelled: JSON text layer (C20), decoding, the discovery step inside the execute plugin (same function as commit's), goroutines (none are started in "
+                'Outcome/Reports). Translated from source per run: plugincommon.GetTransmissionSchedule (C16_gen.v; ChainSupport.SupportsDestChain is an oracle)',
+    'level_text': 'Proof: 32 closed Coq theorems. 24 property theorems. Whole outcome, for all inputs and all runtimes (DeterminismSys): C10_commit_outcome_deterministic '
+                  '- the merkle-root outcome, token prices, gas prices and discovery address maps are equal for every iteration order of every Go map in the '
+                  'observations, in the configuration and of every internally built map, with no hypothesis on the observations (_canon_deterministic, '
+                  'C10_commit_reorder_exists); C10_exec_outcome_deterministic - the three execute states incl. the five merges, report builder and outcome sort, under '
+                  're-ordering at both map levels, of every minObservation cache and of the merged observation; hypothesis: ids faithful (sha3 collision free), shown '
+                  'necessary (C10_exec_msg_id_collision_refuted, _nonce_id_collision_refuted); no unique-sort-key hypothesis (stable sorts keep ties in id order: '
+                  'C10_exec_dupkey_refuted for the pre-F17 GetValid). C10_commit_reports_deterministic, C10_exec_reports_deterministic, C10_schedule_role_map_only: '
+                  'reports and schedule depend on the outcome and the role map only; the own oracle id is not an argument of any outcome function. '
+                  'C10_commit_parts_are_the_judged_models: the composed parts are the models the C01 / C04 / C14 / C07 / C08 sinks judge against the code. Seams: '
+                  'consensus maps independent of map and vote order, sorted output canonical, GetValid order (F17 refuted), schedule, time-zone independent identity of '
+                  'time.Time (F25 refuted). Judge soundness (8 C10_judge_*): the constant "exactly one distinct result" the judge demands is the count the theorems give '
+                  'for every family of runs; borrowed schedule sink proved as in C16. Correspondence, every run: commit and execute Plugin.Outcome + Reports evaluated 16 '
+                  'times per input - 15 on fresh instances, once on VETERAN instances that live across cases (restart equivalence) - with different own oracle ids and '
+                  'process time zones: exactly one (outcome bytes, report bytes, schedule) result allowed; four long-lived execute oracles over the REAL home-chain '
+                  'poller with the role map re-drawn between rounds must attach one schedule (C16_rep_exec_roles). Translation tie (4 theorems, C16_gen.v): '
+                  'GetTransmissionSchedule. Partial: on the implementation map-order effects are SAMPLED by repetition (the theorems carry the unbounded claim on the '
+                  'model); the distinct count is computed by the harness from encoded bytes.',
+    'level_note': 'Trusted: Coq kernel, hand-written model and theorem statements, differential (repetition) harness, leaf translator. Specific: libocr delivers the same '
+                  'previous outcome, query and ordered observation list to every oracle; Go sort.SliceStable / sort.Slice are deterministic functions of their input; '
+                  'randomised map iteration is sampled by 16 evaluations per case, not controlled; sha3 ids taken as collision free (hypothesis of the execute theorem); '
+                  'goroutine timing does not enter Outcome / Reports (none are started there); JSON text layer and decoding are C20. No axioms.',
+    'technique': 'Coq permutation-invariance theorems for the whole commit and execute outcome (composition DeterminismSys of the per-property models under every order '
+                 'of every Go map); repetition harness on fresh and veteran plugin instances with a proved one-distinct-result judge; GetTransmissionSchedule '
+                 're-translated from Go (C16_gen.v)',
 }
